@@ -13,6 +13,13 @@
 (* and the configured bounds are whole seconds, as in the code.            *)
 EXTENDS Naturals, Integers, Sequences, FiniteSets
 
+CONSTANT Dev   \* named deviations of the code from the property (DESIGN 2.6):
+               \*  D_err_exceeds_max_validity  validity() returns
+               \*    transport_failure_duration for a transport error without
+               \*    taking the minimum with max_validity (every other class
+               \*    starts from max_validity): with max_validity <
+               \*    transport_failure_duration a cached failure is served after
+               \*    max_validity has elapsed
 CONSTANT Mut   \* set of seeded specification mutants (always {} except in
                \* the runs that demonstrate that the invariants have teeth)
 
@@ -75,7 +82,9 @@ Classify(m) ==
 (* fn validity (seconds)                                                   *)
 Validity(r, c) ==
   IF IsErr(r) THEN
-      IF "M_err_forever" \in Mut THEN c.maxValidity ELSE c.transportFailure
+      IF "M_err_forever" \in Mut THEN c.maxValidity
+      ELSE IF "D_err_exceeds_max_validity" \in Dev THEN c.transportFailure
+      ELSE Min(c.maxValidity, c.transportFailure)
   ELSE IF r.hdr.tc /\ ~c.cacheTruncated /\ "M_tc_cached" \notin Mut THEN 0
   ELSE
     LET base ==
@@ -84,7 +93,8 @@ Validity(r, c) ==
              CASE k = "Answer"     -> c.maxValidity
                [] k = "NoData"     -> IF "M_neg_posbound" \in Mut THEN c.maxValidity
                                       ELSE Min(c.maxValidity, c.maxNodata)
-               [] k = "Delegation" -> Min(c.maxValidity, c.maxDelegation)
+               [] k = "Delegation" -> IF "M_deleg_nomin" \in Mut THEN c.maxDelegation
+                                      ELSE Min(c.maxValidity, c.maxDelegation)
                [] OTHER            -> 0
           ELSE IF r.hdr.rcode = "NXDOMAIN" THEN
              IF "M_neg_posbound" \in Mut THEN c.maxValidity
